@@ -44,7 +44,10 @@ RULE_ADDED = (
               'epoch, advances refused by the device '
               ' '
               'Round 8: every other round the manager is bound to the name localhost and odd cl'
-              'ients try the IPv6 loopback first. ')
+              'ients try the IPv6 loopback first. '
+              ' '
+              'Round 9: rounds in which one request ends fatally (status word outside the powHS'
+              'M ranges on getPubKey / sign) while other clients are queued. ')
 RULE = RULE + " " + RULE_ADDED.strip()
 ASSUMPTIONS = [
     "schedules are those the OS produces under injected device delays; not enumerated",
